@@ -321,6 +321,25 @@ theorem laws_carry_to_getters (a b : View ν α) (ha : a.WF) (hb : b.WF) (h : Sa
     (idx : List Nat) (hl : idx.length = a.shape.length) (hbd : ∀ i ∈ idx, i ≤ usizeMax) :
     a.get idx = b.get idx := sameView_get ha hb h idx hl hbd
 
+/-- **Towers of matrix ↔ tensor round trips.**  `matrix_stack_agrees_with_matrix_model` holds for
+    any source of C12's model that reports the shape of the 2-dimensional view and answers like it
+    at every index pair (`TSim`), and what comes out of C12's composition then behaves in the same
+    way like the view `mkMatrixStack` returns.  Hence any tower
+    `TensorRefMatrix(ops_n(MatrixRefTensor( … TensorRefMatrix(ops_1(MatrixRefTensor(s))) … )))`,
+    each layer with its own matrix-side stack and names (`mkTower`), composed in C12's model
+    (`mviewTower`, repaired arithmetic) never panics, is refused exactly when this model refuses
+    some layer, and otherwise has the shape and the checked-getter answers of this model's view. -/
+theorem matrix_towers_agree_with_matrix_model (enc : Cell → Nat)
+    (layers : List (List MatOp × ν × ν)) (T : Fallible.TView ν) (s : View ν α)
+    (hs2 : s.shape.length = 2) (hT : TSim enc T s) :
+    (mkTower s layers = none →
+      ∃ sh, mviewTower Fallible.Arith.fixed T layers = .ok (.error sh)) ∧
+    (∀ v, mkTower s layers = some v →
+      ∃ T', mviewTower Fallible.Arith.fixed T layers = .ok (.ok T') ∧ T'.shape = v.shape ∧
+        ∀ i j, T'.get [i, j] = omap enc (v.get [i, j])) := by
+  obtain ⟨a, b⟩ := matrix_tower_bridge enc layers T s hs2 hT
+  exact ⟨a, fun v h => by obtain ⟨T', e, h1, h2⟩ := b v h; exact ⟨T', e, h1, h2⟩⟩
+
 /-- **The constructors establish the invariant.**  Every validation of the model
     (`Tensor::from`, `TensorRefMatrix::with_names` over a `Matrix` and over `MatrixRefTensor` of a tensor view,
     `TensorRange/TensorMask::from`, `from_all`,
@@ -531,6 +550,14 @@ example : (ex1.bind fun v =>
         v'.shape == v.shape)
     | .panic _ => none) =
     some (some 72, some 71, true, true) := by decide
+
+/-- a two-layer tower over a 3×4 tensor: a ranged, row-reversed matrix view of it as a tensor, and
+    of that a column-reversed matrix view as a tensor again -/
+example :
+    ((mkTensor 1 [(0, 3), (1, 4)] (List.range 12)).bind fun t =>
+      (mkTower t [([.range ⟨1, 2⟩ ⟨0, 3⟩, .reverse true false], 7, 8), ([.reverse false true], 5, 6)]).map fun v =>
+        (v.shape, [v.specGet [0, 0], v.specGet [1, 2], v.specGet [2, 0]])) =
+    some ([(5, 2), (6, 3)], [some (1, 10), some (1, 4), none]) := by decide
 
 /-- the legacy formula (unchanged tree) claims `[1, 0, 2]` for the same view: defect #12 -/
 example : mapLinearDataLayoutToTransposedLegacy
